@@ -75,10 +75,17 @@ def replay_schedule(model, cls="SinglePhaseReservoir", nx=4, nt=3, tdtype="f8"):
                    "inputs": {"t": t.tolist()}}
 
 
-def replay_errors(model, cls="SinglePhaseReservoir", which="length", length=None):
+def replay_errors(model, cls="SinglePhaseReservoir", which="length", length=None, after_rejected=False):
     import numpy as np
     r = _real(cls, 4)
     t = np.array([0.0, 0.01, 0.03])
+    if after_rejected:
+        # a simulate call that was REJECTED (wrong schedule length) is not a simulation: recovery still has nothing to report
+        try:
+            r.simulate(t, pressure_fracface=np.full(len(t) + 1, 1000.0))
+            return True, {"what": "a schedule of the wrong length was accepted"}
+        except ValueError:
+            pass
     try:
         if which == "length":
             r.simulate(t, pressure_fracface=np.full(len(t) + 1 if length is None else length, 1000.0))
@@ -86,7 +93,7 @@ def replay_errors(model, cls="SinglePhaseReservoir", which="length", length=None
             r.recovery_factor()
         else:
             r.recovery_factor_interpolator()
-    except (ValueError if which == "length" else RuntimeError) as ex:
+    except (ValueError if which == "length" else Exception) as ex:  # noqa: BLE001
         return False, {"what": f"raises {ex!r} as required"}
     except Exception as ex:  # noqa: BLE001
         return True, {"what": f"raises {ex!r} instead of the documented error"}
@@ -208,16 +215,34 @@ def job_schedule(job, nx, nt, tdtype="f8"):
                                                          "replayer": "replay_errors", "replayer_kwargs": {"cls": cls, "which": "length", "length": nt + extra}}, None)
 
 
-def job_before(job, cls):
+def job_before(job, cls, after_rejected=False):
+    """`after_rejected`: the only simulate call so far was rejected (schedule of the wrong length): still no simulation."""
     mod = load_reservoir()
     job.encoded(mod, "IdealReservoir.recovery_factor", "IdealReservoir.recovery_factor_interpolator")
+    what = "after a rejected simulate call" if after_rejected else "before simulate"
     for which, call in (("rf", lambda r: r.recovery_factor()), ("interpolator", lambda r: r.recovery_factor_interpolator())):
-        res = paths(job, lambda: call(_mk(mod, cls, 4, FluidStub() if cls != "IdealReservoir" else None)), [], catch=(Exception,))
-        ok = res and all(isinstance(p.exc, RuntimeError) for p in res)
-        job.record(f"{cls}/{which} before simulate raises RuntimeError", "unsat" if ok else "sat", 0.0, note=str([type(p.exc).__name__ for p in res]))
+        def run():
+            SS.LinSolve.reset(MemoSolve())
+            SS.reset_names()
+            r = _mk(mod, cls, 4, FluidStub() if cls != "IdealReservoir" else None)
+            if after_rejected:
+                t, _ = times(3)
+                try:
+                    r.simulate(t, pressure_fracface=SymArray([fresh(f"pfs{k}") for k in range(4)], "f8"))
+                except ValueError:
+                    pass
+                else:
+                    raise AssertionError("wrong-length schedule accepted")
+            return call(r)
+        res = paths(job, run, [], catch=(Exception,))
+        # the property asks for "an error": any exception counts (the code documents RuntimeError; after a rejected call the
+        # pinned tree raises AttributeError because `time` is stored before the schedule is validated - still an error)
+        from ..shims.np_shim import UninitRead      # the engine's marker for "numbers computed from np.empty memory": not an error of the code
+        ok = res and all(p.exc is not None and not isinstance(p.exc, (AssertionError, UninitRead)) for p in res)
+        job.record(f"{cls}/{which} {what} raises an error (nothing is returned)", "unsat" if ok else "sat", 0.0, note=str([type(p.exc).__name__ for p in res]))
         if not ok:
-            job._violation(f"{cls}/{which} before simulate", {}, {"what": f"{which} before simulate: {[type(p.exc).__name__ if p.exc else 'returned' for p in res]}",
-                                                                 "replayer": "replay_errors", "replayer_kwargs": {"cls": cls, "which": which}}, None)
+            job._violation(f"{cls}/{which} {what}", {}, {"what": f"{which} {what}: {[type(p.exc).__name__ if p.exc else 'returned' for p in res]}",
+                                                         "replayer": "replay_errors", "replayer_kwargs": {"cls": cls, "which": which, "after_rejected": after_rejected}}, None)
 
 
 def job_interp(job, cls, nx, nt, rerun=None):
@@ -283,6 +308,8 @@ def jobs(tier):
         for nx, nt in cfg:
             out.append((f"shift-{cls[:6]}-{nx}-{nt}", lambda j, c=cls, a=nx, b=nt: job_shift(j, c, a, b)))
         out.append((f"before-{cls[:6]}", lambda j, c=cls: job_before(j, c)))
+        if cls != "IdealReservoir":
+            out.append((f"after-rejected-simulate-{cls[:6]}", lambda j, c=cls: job_before(j, c, True)))
         out.append((f"interp-{cls[:6]}", lambda j, c=cls: job_interp(j, c, 3, 3)))
         out.append((f"interp-rerun-{cls[:6]}", lambda j, c=cls: job_interp(j, c, 3, 3, rerun=("recovery_factor_interpolator",))))
         out.append((f"interp-rerun2-{cls[:6]}", lambda j, c=cls: job_interp(j, c, 3, 3, rerun=("recovery_factor", "recovery_factor_interpolator"))))
